@@ -56,7 +56,8 @@ def _history(fe):
     express = st.fixed_dictionaries({'op': st.just('express'), 'name': nm, 'cbp': st.booleans(), 'life': st.sampled_from([50, 4000])})
     data = st.fixed_dictionaries({'op': st.just('data'), 'of': st.integers(0, 5), 'ext': st.lists(st.sampled_from(ALPHA), max_size=1),
                                   'env': _envspec(), 'token': st.one_of(st.none(), st.binary(max_size=8).map(bytes.hex))})
-    nack = st.fixed_dictionaries({'op': st.just('nack'), 'of': st.integers(0, 5), 'reason': st.sampled_from(REASONS), 'env': _envspec()})
+    nack = st.fixed_dictionaries({'op': st.just('nack'), 'of': st.integers(0, 5), 'reason': st.sampled_from(REASONS), 'env': _envspec(),
+                                  'token': st.one_of(st.none(), st.none(), st.binary(max_size=8).map(bytes.hex))})
     frag = st.fixed_dictionaries({'op': st.just('frag'), 'of': st.integers(0, 5), 'kind': st.sampled_from(['data', 'nack', 'interest']),
                                   'fi': st.integers(0, 3), 'fc': st.integers(2, 4)})
     interest = st.fixed_dictionaries({'op': st.just('interest'), 'name': nm,
@@ -143,7 +144,8 @@ def _run(fe, ops, full, r, flags, trace):
                     flags.add('big-reason')
                 if len(op['env']) >= 2:
                     flags.add('multi-header')
-                send(e['h'].wire, op['env'], nack=True, reason=op['reason'])
+                send(e['h'].wire, op['env'], nack=True, reason=op['reason'],
+                     token=None if op.get('token') is None else bytes.fromhex(op['token']))
                 trace.append('N')
             elif k == 'frag':
                 if not ents:
